@@ -1,5 +1,10 @@
 package q
 
+import "fmt"
+
+// maxVariableDepth is how deep variables may refer to other variables.
+const maxVariableDepth = 1000
+
 type VariableExpr struct {
 	Name string
 }
@@ -8,6 +13,16 @@ func (e *VariableExpr) Evaluate(engine *Engine, input interface{}, args []*State
 	v, err := engine.StatementByVariableName(e.Name)
 	if err != nil {
 		return nil, err
+	}
+
+	// A variable that is defined in terms of itself would never finish.
+	engine.variableDepth++
+	defer func() {
+		engine.variableDepth--
+	}()
+
+	if engine.variableDepth > maxVariableDepth {
+		return nil, fmt.Errorf("variable %s is defined in terms of itself", e.Name)
 	}
 
 	return v.Evaluate(engine, input)
